@@ -198,3 +198,135 @@ def reference_prelude(max_size, exit_opc, ja_opc):
 
 def show_atoms(atoms):
     return sorted(T.show(a) for a in atoms)
+
+
+# ---------------------------------------------------------------------------------------------------------------
+# equivalence of two sets of accepting paths as boolean functions (a path set is a DNF; the same acceptance
+# condition can be split into paths in many ways, e.g. `(0..=9, _) | (10, true)` vs `0..=9` / `10 if store`)
+def _leaves(c, out):
+    if isinstance(c, tuple) and c and c[0] in ("land", "lor"):
+        _leaves(c[1], out)
+        _leaves(c[2], out)
+    elif isinstance(c, tuple) and c and c[0] == "not":
+        _leaves(c[1], out)
+    else:
+        out.append(c)
+
+
+def _field_vars(t, acc):
+    if isinstance(t, tuple):
+        if len(t) == 3 and t[0] == "v" and isinstance(t[1], str):
+            acc.add(t)
+            return True
+        if t and t[0] == "k":
+            return True
+        if t and t[0] in ("zext", "sext", "trunc") and len(t) == 3:
+            return _field_vars(t[2], acc)
+        if t and t[0] == "cmp":
+            return _field_vars(t[3], acc) and _field_vars(t[4], acc)
+    return False
+
+
+def _consts(t, acc):
+    if isinstance(t, tuple):
+        if t and t[0] == "k":
+            acc.add(t[2])
+        else:
+            for x in t:
+                _consts(x, acc)
+
+
+def _ceval(t, env):
+    k = t[0]
+    if k == "k":
+        return t[2] & ((1 << t[1]) - 1)
+    if k == "v":
+        return env[t] & ((1 << t[2]) - 1)
+    if k == "zext":
+        return _ceval(t[2], env)
+    if k == "trunc":
+        return _ceval(t[2], env) & ((1 << t[1]) - 1)
+    if k == "sext":
+        w0 = T.width(t[2])
+        x = _ceval(t[2], env)
+        if x >> (w0 - 1):
+            x |= ((1 << t[1]) - 1) ^ ((1 << w0) - 1)
+        return x
+    raise ValueError(k)
+
+
+def _cmp_eval(c, env):
+    _, opn, w, a, b = c
+    x, y = _ceval(a, env), _ceval(b, env)
+    if opn[0] == "s":
+        sx = x - (1 << w) if x >> (w - 1) else x
+        sy = y - (1 << w) if y >> (w - 1) else y
+        x, y, opn = sx, sy, "u" + opn[1:]
+    return {"eq": x == y, "ne": x != y, "ult": x < y, "ule": x <= y, "ugt": x > y, "uge": x >= y}[opn]
+
+
+def _beval(c, env, opaque):
+    if c == T.TRUE:
+        return True
+    if c == T.FALSE:
+        return False
+    k = c[0]
+    if k == "land":
+        return _beval(c[1], env, opaque) and _beval(c[2], env, opaque)
+    if k == "lor":
+        return _beval(c[1], env, opaque) or _beval(c[2], env, opaque)
+    if k == "not":
+        return not _beval(c[1], env, opaque)
+    key = opaque.get(c)
+    if key is not None:
+        return env[key[0]] == key[1]
+    return _cmp_eval(c, env)
+
+
+def equivalent(paths_a, paths_b):
+    """paths: [(atoms, pc term)] -> (bool, explanation).  Atoms over a single instruction field compared with constants
+    are evaluated on a representative of every interval the constants cut the field's range into; any other atom is an
+    independent boolean unknown (an atom and its negation share the unknown)."""
+    import itertools
+    pcs_a, pcs_b = {p for _a, p in paths_a}, {p for _a, p in paths_b}
+    if pcs_a != pcs_b:
+        return False, "pc advances differ"
+    leaves = []
+    for atoms, _p in list(paths_a) + list(paths_b):
+        for a in atoms:
+            _leaves(a, leaves)
+    opaque, fvars, consts = {}, set(), {}
+    for lf in set(leaves):
+        vs = set()
+        if isinstance(lf, tuple) and lf and lf[0] == "cmp" and _field_vars(lf, vs) and len(vs) == 1:
+            v = next(iter(vs))
+            fvars.add(v)
+            _consts(lf, consts.setdefault(v, set()))
+            continue
+        neg = T.lnot(lf)
+        base = min(lf, neg, key=repr)
+        opaque[lf] = (("opaque", repr(base)), lf == base)
+    unknowns = sorted({k[0] for k in opaque.values()})
+    if len(unknowns) > 12:
+        return False, "too many distinct conditions to compare (%d)" % len(unknowns)
+    doms = []
+    fvars = sorted(fvars, key=repr)
+    for v in fvars:
+        w = v[2]
+        m = (1 << w) - 1
+        reps = {0, 1, m, m >> 1, (m >> 1) + 1}
+        for c in consts.get(v, ()):
+            for d in (-1, 0, 1):
+                reps.add((c + d) & m)
+        doms.append(sorted(reps))
+
+    def holds(paths, pc, env):
+        return any(p == pc and all(_beval(a, env, opaque) for a in atoms) for atoms, p in paths)
+    for vals in itertools.product(*doms):
+        env = dict(zip(fvars, vals))
+        for bits in itertools.product((False, True), repeat=len(unknowns)):
+            env.update(zip(unknowns, bits))
+            for pc in pcs_a:
+                if holds(paths_a, pc, env) != holds(paths_b, pc, env):
+                    return False, "differ at %s" % ", ".join("%s=%#x" % (v[1], x) for v, x in zip(fvars, vals))
+    return True, "equivalent on %d field valuations x %d unknown conditions" % (max(1, len(list(itertools.product(*doms)))), len(unknowns))
